@@ -190,6 +190,18 @@ def _s16(s):
             lab(L), call('mid', I(L)), call('top', I(L)), op(None, I(L))]
 
 
+@skeleton('guarded-recursion', 4, lambda s: s[0] != s[1])
+def _s17(s):
+    P, X, It, L = s
+    # a macro that is expanded while another expansion of itself is still in progress (recursion guarded by a rep count), with a
+    # parameter and a local label used AFTER the inner expansion; and the same through a second macro (mutual recursion)
+    more = ('>', I('n'), 0)
+    return [mdef('rec', ['n', P], [X], body=[lab(X), rep(more, It, 'rec', ('-', I('n'), 1), ('+', I(P), DW)), op(None, I(P)), op(I(X), I(P))]),
+            mdef('ra', ['n', P], body=[rep(more, It, 'rb', ('-', I('n'), 1), ('+', I(P), DW)), op(None, I(P))]),
+            mdef('rb', ['n', P], [X], body=[lab(X), rep(more, It, 'ra', ('-', I('n'), 1), I(X)), op(I(P), I(X))]),
+            lab(L), call('rec', 2, I(L)), call('ra', 3, I(L)), op(None, I(L))]
+
+
 def programs(pool=POOL):
     """yield (skeleton name, slots, program, collisions) for every well-formed assignment"""
     for name, n, wf, build in SKELETONS:
